@@ -153,6 +153,7 @@ Proof.
   - destruct (ppath_eqb np (pf_rel f)).
     + intros E. destruct (IH _ _ _ E) as [H|[f0 [r0 [I0 G0]]]]; [left; assumption | right; exists f0, r0; split; [right; assumption | assumption]].
     + destruct (contained (c_var c) (w_fs w) f np) as [[|]|]; try (intros E; inversion E; subst; left; reflexivity).
+      destruct (dest_parent_test (c_var c) (w_fs w) f np) as [[|]|]; try (intros E; inversion E; subst; left; reflexivity).
       destruct (parents_contained (w_fs w) f np) as [[|]|]; try (intros E; inversion E; subst; left; reflexivity).
       destruct (source_contained (w_fs w) f) as [[|]|]; try (intros E; inversion E; subst; left; reflexivity).
       destruct (renamer c w cw (pf_rel f) np false) as [w1 [e1|]].
